@@ -240,7 +240,7 @@ def run(ctx):
             scale = 30.0 if t == 2 else (8.0 if t == 4 else 1.0)
             for k in range(3):
                 if rng.random() < 0.6:
-                    pens[k] = rng.choice([0.5, 1, 2, 4, 8, 12]) * scale
+                    pens[k] = rng.choice([0.5, 1, 2, 4, 8, 12] + ([0] if k == 2 else [])) * scale
         ka, kb = rng.choice([(1, 1), (1, 1), (2, 1), (1, 3), (2, 2), (3, 3)])
         if rng.random() < 0.35:
             # targeted stream: one sequence against a group, a single internal insertion of 4..12 residues near a Hirschberg
@@ -303,6 +303,17 @@ def run(ctx):
             ka, kb = rng.choice([(2, 2), (2, 2), (3, 2), (2, 3), (3, 3), (1, 2), (1, 1)])
             pens = [-1, -1, -1]
             threads = rng.choice([1, 4])
+            if i % 16 == 5:
+                # a short core between long overhangs with the terminal penalty set to exactly 0 by the caller (an explicit 0 is a value like any
+                # other): free end gaps make the overlap the optimum, any positive terminal price would not
+                Cn = rng.choice([15, 20, 30])
+                core = gen.rand_seq(rng, gen.AA, Cn)
+                a = gen.rand_seq(rng, "KRE", rng.randint(100, 180)) + core
+                b = core + gen.rand_seq(rng, "STG", rng.randint(100, 180))
+                if rng.random() < 0.5:
+                    a, b = b, a
+                pens = [-1, -1, 0.0]
+                ka, kb = rng.choice([(1, 1), (2, 1), (1, 2), (2, 2)])
         todo.append(dict(kind=kind, a=a, b=b, t=t, pens=pens, ka=ka, kb=kb, bt=0 if kind == "protein" else 1, threads=threads))
     todo += [marginal_dovetail(rng) for _ in range(60 if ctx.quick else 600)]
     fails = judge(ctx, kvh, todo)
